@@ -491,10 +491,7 @@ func enumC15(env *EnumEnv, it *WorkItem) *EnumResult {
 		maxN = 4
 	}
 	idx := 0
-	for _, f := range vaultFactories() {
-		if f.name != "sqlite" && env.Tier != "thorough" && false {
-			continue
-		}
+	for _, f := range append(vaultFactories(), cosmosPagedFactories...) {
 		expired := false
 		for L := 0; L <= maxN && !expired; L++ {
 			var rec func(prefix []int)
@@ -545,7 +542,7 @@ func init() {
 		Level: "exploration",
 		Rule: "every store content of 0-3 (4) plans over {NotStarted, Running, Completed, Failed} x 2 groups with submit times that are not in creation order, plus one created-and-deleted plan; against each store ALL filter combinations from ids in {none, unknown, known, known+unknown, two known} x groups in {none, one, two, unknown, known+unknown} x " +
 			"statuses in {none, one, two, two other, one other}, List with every limit 0..n+1, Exists for every created, the never created and the deleted id; each store runs in a testing/synctest bubble, so a result stream that is never closed is detected exactly (its consumer stays durably blocked); " +
-			"oracle: reference filter + sort (newest submission first) over a model store, entry fields compared; sqlite completely, CosmosDB over its fake for what the fake evaluates (Exists, id search and unlimited List as sets, stream termination); distinct_nontrivial = queries against non-empty stores",
+			"oracle: reference filter + sort (newest submission first) over a model store, entry fields compared; sqlite completely, CosmosDB over its fake for what the fake evaluates (Exists, id search and unlimited List as sets, stream termination), also with the fake's answers re-served in pages of one item, with and without an empty page in the middle; distinct_nontrivial = queries against non-empty stores",
 		Assumptions: []string{"sqlite only: the CosmosDB fake cannot evaluate group/status queries", "a Search without any filter must be refused"},
 		Items:       func(tier string) []WorkItem { return shardItems("C15", 16) },
 		Enum:        enumC15,
